@@ -107,7 +107,15 @@ package crypto
 //@ func (Multi[*ECDSASignature]).Len property C19
 //@   ensures [def] result == len(sig)
 
+// msum(sigs, n): total number of entries of the first n signatures (all multi-signatures).
+//@ pure func msum(sigs []hotstuff.QuorumSignature, n int) int = n <= 0 ? 0 : msum(sigs, n - 1) + len(as(sigs[n - 1], Multi[*ECDSASignature])) decreases n
 //@ func (*ECDSA).Combine property C19,C09
+//@   ensures [keeps-count] result1 == nil ==> len(as(result0, Multi[*ECDSASignature])) == msum(signatures, len(signatures))
+//@   ensures [entries-from-inputs] result1 == nil ==> (forall j int :: {as(result0, Multi[*ECDSASignature])[j]} 0 <= j && j < len(as(result0, Multi[*ECDSASignature])) ==> (exists k int, i int :: {old(as(signatures[k], Multi[*ECDSASignature])[i])} 0 <= k && k < len(signatures) && 0 <= i && i < len(as(signatures[k], Multi[*ECDSASignature])) && old(as(signatures[k], Multi[*ECDSASignature])[i]) == as(result0, Multi[*ECDSASignature])[j]))
+//@   loop 0 invariant [count] len(ts) == msum(signatures, rangeindex + 1)
+//@   loop 1 invariant [count] len(ts) == msum(signatures, rangeindex@0 + 1) + rangeindex + 1 && 0 <= rangeindex@0 + 1 && rangeindex@0 + 1 < len(signatures) && istype(signatures[rangeindex@0 + 1], Multi[*ECDSASignature]) && sig2 == as(signatures[rangeindex@0 + 1], Multi[*ECDSASignature])
+//@   loop 0 invariant [from-inputs] forall j int :: {ts[j]} 0 <= j && j < len(ts) ==> (exists k int, i int :: {old(as(signatures[k], Multi[*ECDSASignature])[i])} 0 <= k && k <= rangeindex && 0 <= i && i < len(as(signatures[k], Multi[*ECDSASignature])) && old(as(signatures[k], Multi[*ECDSASignature])[i]) == ts[j])
+//@   loop 1 invariant [from-inputs] forall j int :: {ts[j]} 0 <= j && j < len(ts) ==> (exists k int, i int :: {old(as(signatures[k], Multi[*ECDSASignature])[i])} 0 <= k && k <= rangeindex@0 + 1 && 0 <= i && i < len(as(signatures[k], Multi[*ECDSASignature])) && (k <= rangeindex@0 || i <= rangeindex) && old(as(signatures[k], Multi[*ECDSASignature])[i]) == ts[j])
 //@   requires forall k int :: 0 <= k && k < len(signatures) && istype(signatures[k], Multi[*ECDSASignature]) ==> mnonnil(as(signatures[k], Multi[*ECDSASignature]))
 //@   ensures [distinct] result1 == nil ==> istype(result0, Multi[*ECDSASignature]) && mdistinct(as(result0, Multi[*ECDSASignature])) && mnonnil(as(result0, Multi[*ECDSASignature]))
 //@   ensures [atleast2] len(signatures) < 2 ==> result1 != nil
@@ -171,7 +179,15 @@ package crypto
 //@ func (Multi[*EDDSASignature]).Len property C19
 //@   ensures [def] result == len(sig)
 
+// msumEd(sigs, n): total number of entries of the first n signatures (all multi-signatures).
+//@ pure func msumEd(sigs []hotstuff.QuorumSignature, n int) int = n <= 0 ? 0 : msumEd(sigs, n - 1) + len(as(sigs[n - 1], Multi[*EDDSASignature])) decreases n
 //@ func (*EDDSA).Combine property C19,C09
+//@   ensures [keeps-count] result1 == nil ==> len(as(result0, Multi[*EDDSASignature])) == msumEd(signatures, len(signatures))
+//@   ensures [entries-from-inputs] result1 == nil ==> (forall j int :: {as(result0, Multi[*EDDSASignature])[j]} 0 <= j && j < len(as(result0, Multi[*EDDSASignature])) ==> (exists k int, i int :: {old(as(signatures[k], Multi[*EDDSASignature])[i])} 0 <= k && k < len(signatures) && 0 <= i && i < len(as(signatures[k], Multi[*EDDSASignature])) && old(as(signatures[k], Multi[*EDDSASignature])[i]) == as(result0, Multi[*EDDSASignature])[j]))
+//@   loop 0 invariant [count] len(ts) == msumEd(signatures, rangeindex + 1)
+//@   loop 1 invariant [count] len(ts) == msumEd(signatures, rangeindex@0 + 1) + rangeindex + 1 && 0 <= rangeindex@0 + 1 && rangeindex@0 + 1 < len(signatures) && istype(signatures[rangeindex@0 + 1], Multi[*EDDSASignature]) && sig2 == as(signatures[rangeindex@0 + 1], Multi[*EDDSASignature])
+//@   loop 0 invariant [from-inputs] forall j int :: {ts[j]} 0 <= j && j < len(ts) ==> (exists k int, i int :: {old(as(signatures[k], Multi[*EDDSASignature])[i])} 0 <= k && k <= rangeindex && 0 <= i && i < len(as(signatures[k], Multi[*EDDSASignature])) && old(as(signatures[k], Multi[*EDDSASignature])[i]) == ts[j])
+//@   loop 1 invariant [from-inputs] forall j int :: {ts[j]} 0 <= j && j < len(ts) ==> (exists k int, i int :: {old(as(signatures[k], Multi[*EDDSASignature])[i])} 0 <= k && k <= rangeindex@0 + 1 && 0 <= i && i < len(as(signatures[k], Multi[*EDDSASignature])) && (k <= rangeindex@0 || i <= rangeindex) && old(as(signatures[k], Multi[*EDDSASignature])[i]) == ts[j])
 //@   requires forall k int :: 0 <= k && k < len(signatures) && istype(signatures[k], Multi[*EDDSASignature]) ==> mnonnilEd(as(signatures[k], Multi[*EDDSASignature]))
 //@   ensures [distinct] result1 == nil ==> istype(result0, Multi[*EDDSASignature]) && mdistinctEd(as(result0, Multi[*EDDSASignature])) && mnonnilEd(as(result0, Multi[*EDDSASignature]))
 //@   ensures [atleast2] len(signatures) < 2 ==> result1 != nil
